@@ -44,8 +44,123 @@ def _witness_replays(ctx, avh, avm, tier, seed):
         ctx.oblige("oracle:witness-replay(%s: no C06 failure)" % key, not fails, "; ".join(fails)[:400])
 
 
+# ---------------------------------------------------------------------------------------------------------------------
+# C06 scenarios: histories the generic generator does not reach by chance.  "index order": AutosarModel keeps the path index
+# in an IndexMap; remove_identifiable (swap_remove) moves the LAST entry into the freed slot, so after removing an
+# unrelated identifiable that was registered before a package, an element nested in that package can stand IN FRONT of
+# its ancestor in the index.  A rename / move of the ancestor must still re-key it: the references to the nested element
+# are rewritten (they come from reference_origins), and must still resolve to the same element object.
+HDR = ('<?xml version="1.0" encoding="utf-8"?>\n<AUTOSAR xsi:schemaLocation="http://autosar.org/schema/r4.0 AUTOSAR_00050.xsd" '
+       'xmlns="http://autosar.org/schema/r4.0" xmlns:xsi="http://www.w3.org/2001/XMLSchema-instance">\n')
+
+
+class _El:
+    def __init__(self, tag, name=None, kids=(), text=None, attrs=""):
+        self.tag, self.name, self.kids, self.text, self.attrs, self.h = tag, name, list(kids), text, attrs, None
+
+    def number(self, k):
+        """handles in the order the harness gives them: pre-order, every element (SHORT-NAME included)"""
+        self.h = k
+        k += 1
+        if self.name is not None:
+            k += 1
+        for c in self.kids:
+            k = c.number(k)
+        return k
+
+    def xml(self):
+        sn = "<SHORT-NAME>%s</SHORT-NAME>" % self.name if self.name is not None else ""
+        return "<%s%s>%s%s%s</%s>" % (self.tag, self.attrs, sn, self.text or "", "".join(c.xml() for c in self.kids), self.tag)
+
+
+def _xh(sv):
+    return "x" + sv.encode().hex()
+
+
+def _scenario_scripts():
+    out = []
+    for depth in (1, 2):
+        for n_before in (1, 2):
+            for removed in range(n_before):
+                for action in ("rename_outer", "rename_inner", "move", "move_at"):
+                    if action == "rename_inner" and depth == 1:
+                        continue
+                    target = _El("SYSTEM-SIGNAL", "S")
+                    if depth == 1:
+                        inner = None
+                        pkg = _El("AR-PACKAGE", "p", [_El("ELEMENTS", None, [target])])
+                        tpath = "/p/S"
+                    else:
+                        inner = _El("AR-PACKAGE", "i", [_El("ELEMENTS", None, [target])])
+                        pkg = _El("AR-PACKAGE", "p", [_El("AR-PACKAGES", None, [inner])])
+                        tpath = "/p/i/S"
+                    unrelated = [_El("SYSTEM-SIGNAL", "u%d" % k) for k in range(n_before)]
+                    ref = _El("I-SIGNAL", "r", [_El("SYSTEM-SIGNAL-REF", None, [], tpath, ' DEST="SYSTEM-SIGNAL"')])
+                    elems_a = _El("ELEMENTS", None, unrelated + [ref])
+                    dest = _El("AR-PACKAGES")
+                    root = _El("AUTOSAR", None, [_El("AR-PACKAGES", None, [
+                        _El("AR-PACKAGE", "b", [dest]), _El("AR-PACKAGE", "a", [elems_a]), pkg])])
+                    root.number(1)
+                    doc = HDR + root.kids[0].xml() + "</AUTOSAR>\n"
+                    ops = ["OP new_model", "OP2 load 0 %s %s 1" % (_xh(doc), _xh("a.arxml")),
+                           "OP remove %d %d" % (elems_a.h, unrelated[removed].h)]
+                    if action == "rename_outer":
+                        ops.append("OP set_item_name %d %s" % (pkg.h, _xh("q")))
+                    elif action == "rename_inner":
+                        ops.append("OP set_item_name %d %s" % (inner.h, _xh("q")))
+                    elif action == "move":
+                        ops.append("OP move %d %d" % (dest.h, pkg.h))
+                    else:
+                        ops.append("OP move_at %d %d 0" % (dest.h, pkg.h))
+                    # a second rename afterwards: the state a wrong re-keying leaves must not be repaired silently
+                    ops.append("OP set_item_name %d %s" % (target.h, _xh("T")))
+                    out.append((("depth=%d before=%d removed=%d %s" % (depth, n_before, removed, action)), ops))
+    return out
+
+
+def _scenarios(ctx, avh, avm):
+    tw = treecommon.TW
+    os.makedirs(tw, exist_ok=True)
+    scen = _scenario_scripts()
+    sp = os.path.join(tw, "c06_scenarios.txt")
+    with open(sp, "w") as fh:
+        for k, (_, ops) in enumerate(scen):
+            fh.write("SCRIPT %d\nPATHS 2f70 2f71 2f702f53 2f712f53 2f622f70 2f622f702f53\n%s\n" % (k, "\n".join(ops)))
+    env = {"AVH_TREE_ENABLE": "load"}
+    _, o1, _ = lib.run([avh, "tree", "run", treecommon.DUMP, sp], cwd=tw, timeout=600, env=env)
+    _, o2, _ = lib.run([avm, treecommon.DUMP, sp], cwd=tw, timeout=600, env=env)
+    a = [l for l in o1.split("\n") if l.startswith("S ")]
+    b = [l for l in o2.split("\n") if l.startswith("S ")]
+    ctx.oblige("correspondence:C06-index-order-scenarios(%d scripts: implementation vs extracted Coq model)" % len(scen),
+               a == b and len(a) == len(scen), str([(x, y) for x, y in zip(a, b) if x != y][:2]) + " impl=%d model=%d" % (len(a), len(b)))
+    _, o3, _ = lib.run([avh, "tree", "oracle", treecommon.DUMP, sp], cwd=tw, timeout=600, env=env)
+    known = [e for e in lib.load_known("C06") if e.get("status") == "known"]
+    fails = [treecommon.parse_fail(l) for l in o3.split("\n") if l.startswith("FAIL C06 ")]
+    bad = [f for f in fails if not any(treecommon.known_match(e, f) for e in known)]
+    ctx.coverage["c06_index_order_scenarios"] = len(scen)
+    ctx.oblige("oracle:C06 holds on the index-order scenarios (an identifiable removed before a rename / move of a package "
+               "whose nested element is referenced; %d histories)" % len(scen), not bad, "; ".join(f["raw"] for f in bad)[:600])
+    if bad:
+        f = bad[0]
+        k = int(f.get("script", "0"))
+        name, ops = scen[k] if 0 <= k < len(scen) else scen[0]
+        ctx.violation({"property": "C06", "kind": "failing-history",
+                       "what": "reference no longer resolves to the same element after rename/move: the reference text and the "
+                               "referrer map were rewritten to the new path, but get_element_by_path(new path) does not give "
+                               "the element the reference designated before (scenario %s)" % name,
+                       "oracle_line": f["raw"], "script": ["SCRIPT 0"] + ops,
+                       "how_to_replay": "save `script` (one line each) to f.txt; AVH_TREE_ENABLE=load harness/target/debug/avh tree "
+                                        "oracle work/dump f.txt ; `avh tree run work/dump f.txt -v` shows every observation"}, tag="scn")
+
+
+def _extra(ctx, avh, avm, tier, seed):
+    _witness_replays(ctx, avh, avm, tier, seed)
+    if avh and avm:
+        _scenarios(ctx, avh, avm)
+
+
 def run(tier, seed):
-    return treecommon.run_tree_property("C06", tier, seed, "Properties/C06.v", extra_check=_witness_replays,
+    return treecommon.run_tree_property("C06", tier, seed, "Properties/C06.v", extra_check=_extra,
                                           extra_props=[("Properties/C06Load.v", "pins/C06Load.json")])
 
 
